@@ -307,7 +307,11 @@ void Exec::op_foreign(Client &c) {
 	if (mal > 0) {
 		auto ins_before = [&](const std::string &key, const std::string &what) { size_t p = text.find(key); if (p == std::string::npos) return false; text.insert(p, what); return true; };
 		std::string c0 = lp->cols.empty() ? "x0" : lp->cols[0].name, r0 = lp->rows.empty() ? "r0" : lp->rows[0].name;
-		if (fmt == "MPS") switch (mal % 10) {
+		if (fmt == "MPS") switch (mal % 14) {
+		case 10: { std::string dup = " RHS " + r0 + " 98765432109876543210/3\n RHS " + r0 + " 12345678901234567890123/7 " + r0 + " 5\n"; if (ins_before("RANGES\n", dup) || ins_before("BOUNDS\n", dup)) malwhat = "a second and third rhs value for one row"; break; }
+		case 11: if (ins_before("BOUNDS\n", "RANGES\n RNG " + r0 + " 98765432109876543210/3\n RNG " + r0 + " 12345678901234567890123/7\n")) malwhat = "RANGES section (possibly a second one) with two values for one row"; break;
+		case 12: if (ins_before("ENDATA", " UP BND " + c0 + " 98765432109876543210/3\n UP BND " + c0 + " 12345678901234567890123/7\n LO BND " + c0 + " 1/3\n LO BND " + c0 + " 2/3\n FX BND " + c0 + " 4/7\n")) malwhat = "bounds given twice for one column"; break;
+		case 13: if (ins_before("BOUNDS\n", " RHS2 " + r0 + " 98765432109876543210/3\n")) malwhat = "a second rhs vector"; break;
 		// the second section comes after the first RHS / BOUNDS section has been read: whatever those set up once was sized for the names known then
 		case 1: { int k = 2 + (mal / 10) * 12; std::string rows = "ROWS\n", cols = "COLUMNS\n", rhs = "RHS\n", rng = "RANGES\n"; for (int t = 0; t < k; t++) { std::string nm = strf("zr%d", t); rows += std::string(t % 2 ? " G " : " L ") + nm + "\n"; cols += " " + c0 + " " + nm + " " + std::to_string(t + 1) + "\n"; rhs += " RHS " + nm + " 12345678901234567890123/7\n"; rng += " RNG " + nm + " 98765432109876543210/3\n"; }
 			if (ins_before("BOUNDS\n", rows + cols + rhs + rng)) malwhat = strf("second ROWS/COLUMNS sections with %d new rows after the first RHS section, second RHS/RANGES using them", k); break; }
